@@ -31,7 +31,10 @@ class CGen:
     def atom(self):
         r = self.rnd
         if r.random() < self.hostile:
-            return ('A', r.choice(QUOTED_ATOMS))
+            a = r.choice(QUOTED_ATOMS)
+            if r.random() < 0.15:
+                a = S.escaped_spelling(a, r)       # redundant backslashes in the source spelling
+            return ('A', a)
         a = r.choice(PLAIN_ATOMS)
         return ('A', a, r.random() < 0.1)       # sometimes quoted although not necessary
 
